@@ -38,6 +38,7 @@ def shuffle_case(case, ctx):
     X = gen.encode_batch(seqs, alpha, gen.DTYPES[case.get("dtype", "int8")])
     Xc = X.clone()
     n, seed = case["n"], case["seed"]
+    seed = {"int": int, "np_int64": numpy.int64, "np_int32": numpy.int32}[case.get("seed_type", "int")](seed)
     kind = case["kind"]
     kw = {}
     if case["start"] is not None:
@@ -57,6 +58,12 @@ def shuffle_case(case, ctx):
             Y2 = dinucleotide_shuffle(X, n=n, random_state=seed, **kw)
         except Exception as e:  # noqa: BLE001 - statement: "whenever it returns at all"
             require(torch.equal(X, Xc), kind + "-input-modified", "input changed by a failing call")
+            # a single shuffle (n == 1) of a valid region of >= 3 positions always exists (the input itself is one): the only
+            # documented refusals are "all n > 1 shuffles identical" and invalid input, so a refusal here is a wrong rejection
+            sut_len = (b - a) if case["end"] is not None else (L - 1 - a)      # the default end=-1 is sliced Python-style
+            if n == 1 and sut_len >= 3:
+                raise Violation("dinuc-valid-region-rejected", "seqs=%r region=[%d,%d) end arg=%r: %s: %s" % (
+                    [s_[:40] for s_ in seqs], a, b, case["end"], type(e).__name__, str(e)[:200]))
             raise Rejected() from e
     require(torch.equal(X, Xc), kind + "-input-modified", "")
     require(tuple(Y.shape) == (B, n, A, L), kind + "-shape", lambda: str(tuple(Y.shape)))
@@ -105,8 +112,28 @@ def _strategy(kind, maxL):
             if b_ - a_ < 10 or any(len(set(s[a_:b_])) < 3 for s in seqs):
                 n = 1
         return {"A": A, "seqs": seqs, "kind": kind, "start": start, "end": end, "n": n,
+                "seed_type": draw(st.sampled_from(["int", "int", "np_int64", "np_int32"])),
                 "seed": draw(st.integers(0, 2 ** 31 - 10)), "dtype": draw(st.sampled_from(["int8", "float32", "int64"]))}
     return f()
+
+
+@st.composite
+def long_strategy(draw):
+    """Few, long sequences: index types narrower than the sequence (int16, uint8 ...) only show beyond their range."""
+    A = draw(st.integers(2, 4))
+    alpha = gen.LETTERS[:A]
+    L = draw(st.sampled_from([300, 5000, 33000, 40000, 70000]))
+    seed0 = draw(st.integers(0, 10 ** 6))
+    # the sequence itself is a deterministic function of generated values (cheap to replay, tiny case JSON)
+    import random as _random
+    rng = _random.Random(seed0)
+    seq = "".join(rng.choice(alpha) for _ in range(L))
+    kind = draw(st.sampled_from(["dinuc", "dinuc", "shuffle"]))
+    whole = draw(st.booleans())
+    start = None if whole else draw(st.integers(0, 50))
+    end = None if whole else L - draw(st.integers(0, 50))
+    return {"A": A, "seqs": [seq], "kind": kind, "start": start, "end": end, "n": draw(st.integers(1, 2)),
+            "seed": draw(st.integers(0, 2 ** 31 - 10)), "dtype": "int8", "seed_type": "int"}
 
 
 def small_enum(tier):
@@ -240,6 +267,7 @@ def subchecks(tier):
     return [
         Sub("shuffle_random", shuffle_case, strategy=lambda: _strategy("shuffle", 60), n_quick=6000, n_thorough=100000, shards_quick=2),
         Sub("dinuc_random", shuffle_case, strategy=lambda: _strategy("dinuc", 60), n_quick=6000, n_thorough=100000, shards_quick=2),
+        Sub("long_sequences", shuffle_case, strategy=long_strategy, n_quick=12, n_thorough=300, shards_quick=1, shards_thorough=8),
         Sub("small_scope", shuffle_case, enum=small_enum, exhaustive=True, shards_quick=2, shards_thorough=8,
             desc="every sequence of length 3..7 (A=2,3; A=4 to 6) in quick, 3..8 in thorough, as batches of 64, n=2, shuffle and dinucleotide_shuffle"),
         Sub("walk_outcomes", walk_case, enum=walk_enum, exhaustive=True, shards_quick=4, shards_thorough=16,
